@@ -5,7 +5,7 @@ LEVEL = "model_checking"
 RULE = ("every graph/weight mode/rate pair/initial sets/horizon of the bound is one spec; for each spec EVERY outcome of "
         "every random draw is enumerated (stateless DFS with prefix replay on the real code); non-trivial = complete "
         "execution with at least one event, distinct by choice sequence")
-BOUNDS = {"quick": "Gillespie_SIR: all 11 labelled graphs on <=3 nodes + P4,S4,C4,paw,K4; |I0|<=2,|R0|<=1; 4 weight modes (one zero-weight edge on >=4 edges); 3x3 rate grid; 4 finite horizons incl. exact tmax hits and negative tmin; graphs with self-loops; 3-node weighted specs with the probability-zero outcome 'uniform draw == 0.0' as an extra branch. fast_SIR: all graphs with an edge on <=3 nodes + P4,S4; 2 exponential magnitudes with dyadic jitter; weighted, zero-rate and unweighted (binomial) paths",
+BOUNDS = {"quick": "Gillespie_SIR: all 11 labelled graphs on <=3 nodes + P4,S4,C4,paw,K4; |I0|<=2,|R0|<=1; 4 weight modes (one zero-weight edge on >=4 edges); 3x3 rate grid; 4 finite horizons incl. exact tmax hits and negative tmin; graphs with self-loops; 3-node weighted specs with the probability-zero outcome 'uniform draw == 0.0' as an extra branch. fast_SIR: all graphs with an edge on <=3 nodes + P4,S4; 2 exponential magnitudes with dyadic jitter; weighted, zero-rate and unweighted (binomial) paths, graphs with self-loops; both simulators also with rates of order 1e-9 (Gillespie) and with rates/times passed as Python ints, numpy.int64 and numpy.float64",
           "thorough": "all graphs on <=4 nodes + bull,P5,S5; all I0; |R0|<=2"}
 ASSUMPTIONS = ["small-scope hypothesis: graphs above the node bound are not explored",
                "expovariate value is used by Gillespie code only as a clock increment (checked: the argument is compared with the chain's total rate)",
